@@ -31,7 +31,46 @@ fn parts(t: Tier) -> Vec<Part> {
     vec![tape("reader", a, 300), tape("writer", b, 300)]
 }
 
+/// a chain of nested sub-readers several hundred levels deep (each a sub-reader of the previous one)
+fn check_deep_nesting(t: &mut Tape, cx: &mut Cx) -> Res {
+    cx.eval();
+    let depth = 200 + t.below(400);
+    let data: Vec<u8> = (0..depth + 8).map(|i| i as u8).collect();
+    cx.stage(STAGE_ARMED);
+    let r = guard(|| {
+        let mut cur = SliceReader::from(&data[..]);
+        for level in 0..depth {
+            let n = cur.len() - 1;
+            let _ = unsafe { cur.read_u8_unchecked() };
+            let sub = cur.subreader(n);
+            if !cur.is_empty() || sub.len() != n {
+                return Some(level);
+            }
+            cur = sub;
+        }
+        let last = unsafe { cur.read_u8_unchecked() };
+        if last as usize != depth % 256 {
+            return Some(depth);
+        }
+        None
+    });
+    cx.stage(STAGE_SETUP);
+    match r {
+        Caught::Ok(None) => {
+            cx.class("chain of several hundred nested sub-readers");
+            cx.nontrivial(&(depth, 33u8));
+            Ok(())
+        }
+        Caught::Ok(Some(l)) => fail(format!("nested sub-reader at depth {} has the wrong extent or content", l), json!({"depth": depth})),
+        Caught::Panic(p) => fail(format!("a sub-reader request with its precondition satisfied panicked at some nesting depth: {}", p.short()), json!({"depth": depth})),
+        Caught::Monitor(_) => fail("unexpected panic payload", json!({})),
+    }
+}
+
 fn check_reader(t: &mut Tape, cx: &mut Cx) -> Res {
+    if t.chance(1) {
+        return check_deep_nesting(t, cx);
+    }
     cx.eval();
     let n = match t.below(5) {
         0 => 0,
@@ -211,7 +250,11 @@ fn check_writer(t: &mut Tape, cx: &mut Cx) -> Res {
                     t.raw(n)
                 };
                 trace.push(format!("write_bytes({})", hex_short(&b)));
-                w.write_bytes(&b);
+                // the source slice may start at any address: take it out of a larger buffer at offset 0..7
+                let k = t.below(8);
+                let mut holder = vec![0u8; k];
+                holder.extend_from_slice(&b);
+                w.write_bytes(&holder[k..]);
                 model.extend_from_slice(&b);
             }
             1 => {
@@ -246,7 +289,8 @@ fn check_writer(t: &mut Tape, cx: &mut Cx) -> Res {
                     1 => 2,
                     _ => 1 + t.below(8),
                 };
-                let b = t.raw(n);
+                let mut b = t.raw(n);
+                let derive = t.chance(20);
                 let (off, in_range) = match t.below(7) {
                     0 | 1 if len >= n => (t.below(len - n + 1), true),
                     2 if len >= n => {
@@ -274,6 +318,16 @@ fn check_writer(t: &mut Tape, cx: &mut Cx) -> Res {
                         }
                     }
                 };
+                if derive && in_range {
+                    // a patch that repeats what the buffer already holds there, except for one late octet
+                    let n2 = (9 + t.below(24)).min(len - off);
+                    if n2 >= 2 {
+                        b = model[off..off + n2].to_vec();
+                        let j = n2 - 1 - t.below(n2.min(4));
+                        b[j] ^= 1 + (t.byte() & 0x7f);
+                    }
+                }
+                let n = b.len();
                 trace.push(format!("write_bytes_at({}, {})", hex(&b), off));
                 let before = w.data.clone();
                 let r = guard(|| w.write_bytes_at(&b, off));
